@@ -304,7 +304,8 @@ func randSchema(rng *rand.Rand, depth int, root bool) M {
 		return M{"k": "obj", "props": props, "addl": addl, "minP": pick(rng, 0, 0, 0, 1, 2), "maxP": pick(rng, none, none, none, 2, 3)}
 	case 5:
 		in := randSchema(rng, depth-1, false)
-		if in["k"] == "nullable" || in["k"] == "any" {
+		// (members beside a $ref are ignored in OpenAPI 3.0: nullable is never put next to one)
+		if in["k"] == "nullable" || in["k"] == "any" || in["k"] == "ref" {
 			return in
 		}
 		return M{"k": "nullable", "s": in}
